@@ -36,6 +36,7 @@ class _Env:
 
 
 ENV = _Env()
+_PURE = {}    # memo of purification variables per path (same operands -> same variable)
 
 
 def fresh_real(prefix="t"):
@@ -526,11 +527,16 @@ class SqrtV:
 
     def purify(self):
         if self._pur is None:
+            key = ("sqrt", id(ENV.side), frozenset(self.p.t.items()))
+            if key in _PURE:
+                self._pur = _PURE[key]
+                return self._pur
             s = fresh_real("sqrt")
             ps = topoly(s)
             add_side(s >= 0)
             add_side(zbool(eq(pmul(ps, ps), self.p)))
             self._pur = ps
+            _PURE[key] = ps
         return self._pur
 
 
@@ -731,12 +737,17 @@ def div(a, b):
     if pb.is_const():
         return div(a, float(pb.const()))
     pa = topoly(a)
-    # a / b with identical polynomials up to scale -> constant
+    key = ("div", id(ENV.side), frozenset(pa.t.items()), frozenset(pb.t.items()))
+    if key in _PURE:
+        return _PURE[key]
     q = fresh_real("div")
     pq = topoly(q)
     nz = zbool(ne(b, 0))
     add_defined(nz)
     add_side(z3.Implies(nz, zbool(eq(pmul(pq, pb), pa))))
+    _PURE[key] = pq
+    if len(_PURE) > 20000:
+        _PURE.clear()
     return pq
 
 
